@@ -308,6 +308,10 @@ impl NearestNeighbour for BallTree {
     }
 }
 
+#[cfg(linfa_verif)]
+#[path = "verif_hooks_c07.rs"]
+pub mod verif_hooks_c07;
+
 #[cfg(test)]
 mod test {
     use approx::assert_abs_diff_eq;
